@@ -177,7 +177,11 @@ class mapper(object):
             res = mem(k.a, k.size, mods=list(items), endian=k.endian)
         else:
             res = self._Mem_read(k.a, k.length, k.endian)
-            res.sf = k.sf
+            if res.sf != k.sf:
+                # res can be the very expression object stored in memory
+                # (shared with other expressions): annotate a copy.
+                res = copy(res)
+                res.sf = k.sf
         return res
 
     def aliasing(self, k):
